@@ -20,6 +20,9 @@ def requests(ctx):
               [65534, 65535, 65536, 65537, 131069, 131070, 131071, 131072, 196605, 196606, 200000, 1000000]):
         rq.append(storegen.gen_rollover(rng, n, nsig=rng.choice([1, 2]), every=rng.choice([1, 7, 1000])))
     rq.append(storegen.gen_rollover(rng, 140000, splits=(65535, 65536, 70000, 131070)))
+    # recordings that end (or pause) right behind a roll-over: the last block holds nothing but time steps
+    for n in (65536, 65537, 131071, 131075):
+        rq.append(storegen.gen_rollover(rng, n, nsig=1, every=1000, quiet=True))
     # the same property at the file level: which `#` tokens of a VCD open a time step
     for _ in range(400 if quick else 6000):
         vars_ = vcdgen.gen_vars(rng, nvars=rng.choice([1, 2]), style="dense")
